@@ -536,10 +536,13 @@ fn helpers_history(rng: &mut Rng, nops: usize) -> Prog {
                 p.step("sign int", format!("print(sign({}) == {})", il(a), il(a.signum())), vec!["true".into()]);
             }
             6 => {
-                // div: floor division for a >= 0, b > 0 (negatives / zero are unspecified and not generated)
-                let a = *rng.pick(&[0i64, 1, 2, 7, 10, 255, 4294967296]);
-                let b = *rng.pick(&[1i64, 2, 3, 7, 10]);
-                p.step("div", format!("print(div({}, {}) == {})", a, b, a / b), vec!["true".into()]);
+                // div: floor division (the quotient rounded towards minus infinity, as the helper's use of `floor`
+                // says), for every sign combination; a zero divisor is unspecified and not generated
+                let a = *rng.pick(&[0i64, 1, 2, 7, 10, 255, 4294967296, -1, -2, -7, -9, -10, -255]);
+                let b = *rng.pick(&[1i64, 2, 3, 7, 10, -1, -2, -3, -7, -10]);
+                let q = a / b;
+                let fl = if a % b != 0 && ((a < 0) != (b < 0)) { q - 1 } else { q };
+                p.step("div", format!("print(div({}, {}) == {})", il(a), il(b), il(fl)), vec!["true".into()]);
             }
             7 => {
                 let a = *rng.pick(&floats);
